@@ -32,6 +32,9 @@ TECHNIQUE += '; finite-domain constant evaluation of Shell.nbasis; sibling predi
 EXPLANATION += ' R6 now evaluates Shell.nbasis over 179 (angmoms, kinds) combinations against (l+1)(l+2)/2 / 2l+1 / TypeError; R3 also requires occsa, occsb and spinpol to decide the restricted heuristic with one and the same predicate (helper calls inlined).'
 TECHNIQUE += '; evaluation of the MolecularOrbitals accessors on abstract instances (symbolic arrays / constant occupation patterns)'
 EXPLANATION += ' R2-R5 no longer match source templates: the property getters and setters of MolecularOrbitals are interpreted (iodalint.accessors, whitelisted statements and numpy index/ring operations only) on abstract instances -- symbolic occupation / coefficient / energy arrays for slices, formulas and read-back of assignments over orbital counts (2,1),(1,2),(2,0),(0,2),(1,1),(3,3); nine constant occupation patterns (integer, fractional, near-integer) for the heuristic; all 64 two-step occsa/occsb assignment sequences over four vectors -- and compared with the documented semantics; cached properties are rejected.'
+# --- metadata added for batch 7
+EXPLANATION += " R4 also requires that an assigned occupation array is stored by value: the caller's array is changed in place after `mo.occsa = x` and the object must read back the values assigned (np.asarray is modelled as handing back the same array)."
+# --- end metadata batch 7
 TRUSTED = ["CPython ast parser", "attrs validators run on construction and assignment"]
 
 SPIN_ATTRS = ("occs", "coeffs", "energies", "irreps")
